@@ -695,7 +695,7 @@ func TestVerif_C09(t *testing.T) {
 			"x EVERY claimed run over the same alphabet (3^n assignments: all honest runs and all ascending forgeries) x every start key (alphabet keys, k-1, k+1, gap midpoints, 00.., ff..) " +
 			"x proofdb in {honest edge proofs for the claim; thorough: also all genuine nodes of every trie of the family}; [noproof] every trie x every claimed run with proof=nil; " +
 			"[edits] 7-key alphabets and a dense 16-sibling trie: every start x every honest run (all lengths incl. empty) x every single edit (drop, 3 value alterations, key alteration, duplicate, " +
-			"swap, insert of every absent/later key at sorted and unsorted positions) x proofdb in {edge proofs, family nodes}; honest runs also with each edge-proof node withheld " +
+			"swap, insert of every absent/later key at sorted and unsorted positions) x proofdb in {edge proofs, family nodes}; honest runs also with the output of Trie.Prove and with each edge-proof node withheld " +
 			"(quick: 127 subset tries per alphabet with alternating values; thorough: all 2186 assignments, and for the 127 core tries every subset of nodes withheld for honest runs and each node withheld for edits); " +
 			"[wild] runs of <=2 entries over keys of mixed lengths incl. empty key, empty values, unsorted, mismatched key/value counts, x mixed-length starts x 4 proofdbs: no panic, no false entry accepted. " +
 			"distinct = distinct (trie, claimed run, start, verdict) for all/noproof, distinct (trie,start,run) otherwise; evaluations = VerifyRangeProof executions")
@@ -871,6 +871,17 @@ func TestVerif_C09(t *testing.T) {
 						hedge := tr.edge(s, honest)
 						c09Verify(r, tr, "edits/honest", s, honest, hedge, "edge", true, st)
 						c09Verify(r, tr, "edits/honest", s, honest, familyDB, "family", true, st)
+						// the same with what the real prover emits (Trie.Prove for the start key and the last returned key)
+						pdb := c09DB{}
+						perr := tr.real.Prove(s, pdb)
+						if l > 0 && perr == nil {
+							perr = tr.real.Prove(rem[l-1].k, pdb)
+						}
+						if perr != nil {
+							r.Violation("prove:"+fam.name+":"+tr.id, "Trie.Prove failed: "+perr.Error(), nil)
+						} else {
+							c09Verify(r, tr, "edits/honest", s, honest, pdb, "prove", true, st)
+						}
 						r.Distinct(tr.id + "|" + string(s) + "|" + honest.str)
 						// honest run with proof nodes withheld: never a wrong verdict
 						hk := hedge.sortedKeys()
